@@ -23,6 +23,8 @@ EXPLANATION_ADDED = (' (R6) neither bounding_box nor to_mask nor any property of
 EXPLANATION += EXPLANATION_ADDED
 EXPLANATION_ADDED2 = (' (R7) extents are computed in floating point: sizes keep the type they were given (PositiveScalar stores np.uint8(5) as it is) — the may-be-integer dataflow of C01.R9 over every bounding_box, with the size attributes as possibly-integer sources, finds no sum, difference, product or power in their own dtype.')
 EXPLANATION += EXPLANATION_ADDED2
+EXPLANATION_ADDED3 = (' (R7 also) the same dataflow over `corners` (a unary minus on an unsigned size wraps).')
+EXPLANATION += EXPLANATION_ADDED3
 TRUSTED = ['np.floor/np.ceil/int on floats', 'ndarray.min()/max() are the extreme elements',
            'np.cos/np.sin of an angle Quantity']
 ASSUMPTIONS = ['real arithmetic', 'support function = tight axis-aligned extent of a convex shape']
@@ -316,19 +318,20 @@ def r7(ctx):
     m = ctx.model
     n = 0
     for ci in m.region_classes('pixel'):
-        f = ci.methods.get('bounding_box')
-        if f is None:
-            continue
-        n += 1
-        lint = _DtypeLint(ctx, m, sums=True, int_descr_kinds=('PositiveScalar',))
-        lint.fn(f, ['scalar'])
-        if lint.problems:
-            fi, node, text = lint.problems[0]
-            ctx.bad(f'{ci.name}.bounding_box', 'fixed-width-size',
-                    f'{text}: a size given as a fixed-width numpy integer makes the extent wrap around; convert it to float '
-                    'first', fi.loc(node))
-        else:
-            ctx.ok(f'{ci.name}.bounding_box', 'extents are computed in floating point')
+        for prop_ in ('bounding_box', 'corners'):
+            f = ci.methods.get(prop_)
+            if f is None:
+                continue
+            n += 1
+            lint = _DtypeLint(ctx, m, sums=True, int_descr_kinds=('PositiveScalar',))
+            lint.fn(f, ['scalar'])
+            if lint.problems:
+                fi, node, text = lint.problems[0]
+                ctx.bad(f'{ci.name}.{prop_}', 'fixed-width-size',
+                        f'{text}: a size given as a fixed-width numpy integer makes the extent wrap around; convert it to float '
+                        'first', fi.loc(node))
+            else:
+                ctx.ok(f'{ci.name}.{prop_}', 'extents are computed in floating point')
     ctx.need(n >= 6, 'bounding_box properties', f'only {n} found')
 
 
